@@ -547,12 +547,12 @@ RULE_ADDENDA = {
     "C11": "histories contain reopen_output() with the file in place; every 2nd case adds kill points that do not depend on the hooks: the history runs under strace, which delivers SIGKILL at the entry of the n-th rename/unlink/symlink/openat/write naming the log directory (taken from a traced run; sampled, thorough: all when at most 80)",
     "C12": "two thirds of the cases register an additional writer of low ceiling; every 20th case has the specfile watcher as one more controlled participant",
     "C13": "lists with repeated names; an enabled() query per routed record; a third of the specifications carries a text filter (it concerns the default channel only), messages hit and miss it",
-    "C14": "near-miss classes include <fixed>_<infix>.gz without the suffix and sub-directories named like a family file; class suffix-overlap (fixed name part ends like the beginning of .<suffix>); every 32nd case runs the polluted history in a child under strace (-f -y, %file + fd-based calls) and checks offline that no successful mutating system call names a foreign path (shape suffix |strace; counters strace_*)",
+    "C14": "near-miss classes include <fixed>_<infix>.gz without the suffix and sub-directories named like a family file; class suffix-overlap (fixed name part ends like the beginning of .<suffix>); every 32nd case runs the polluted history in a child under strace (-f -y, %file + fd-based calls) and checks offline that no successful mutating system call names a foreign path (shape suffix |strace; counters strace_*); class dot-truncated (a dot inside the fixed name part, mostly no suffix: <part before the dot>.gz and relatives)",
     "C15": "parameterless write-mode variants take part; reopen_output() with the file in place is one of the operations of the record histories",
     "C16": "per-case equivalent builder call sequences; try_from paths also with rotation + listing; every 32nd case is a DST child; in half of the symlink cases the configured link exists before the logger starts (dangling, or pointing elsewhere)",
     "C17": "a tenth of the strings is long; every 16th string also through the RUST_LOG entry points; blank-part vs empty-part relation for inputs the docs leave open",
     "C18": "every 8th case: primary file/stderr/stdout + an additional file writer, one reopen_output for all, immediate reads of unbuffered files; every 16th case: reopen_output in a loop while 2-4 threads log through rotations; a third of the resets of a non-rotating family keeps the same file specification and only switches rotation on",
-    "C19": "a bystander file writer in every fault history; a third of the cases with the background cleanup thread; partition under cleanup faults and cleanup limits after recovery are judged; real faults: blocked rotation target, rotated name longer than NAME_MAX, controlled failed-open-then-background-cleanup order, RLIMIT_FSIZE; every 10th case: failures of the system calls themselves (strace -e inject=<call>:error=<errno>:when=<n>[..m] on the n-th write/openat/rename/unlink naming the log directory of a child history; the strace log attributes each failure to the operation window announced in the ack file); the listing of the directory (fs point read_dir) is one of the hook fault points since the listing has an error path (fix 5ed7d12); the syscall-fault histories contain restarts (a logger started on a directory with files, under a fault)",
+    "C19": "a bystander file writer in every fault history; a third of the cases with the background cleanup thread; partition under cleanup faults and cleanup limits after recovery are judged; real faults: blocked rotation target, rotated name longer than NAME_MAX, controlled failed-open-then-background-cleanup order, RLIMIT_FSIZE; every 10th case: failures of the system calls themselves (strace -e inject=<call>:error=<errno>:when=<n>[..m] on the n-th write/openat/rename/unlink naming the log directory of a child history; the strace log attributes each failure to the operation window announced in the ack file); the listing of the directory (fs point read_dir) is one of the hook fault points since the listing has an error path (fix 5ed7d12); the syscall-fault histories contain restarts (a logger started on a directory with files, under a fault); in the syscall-fault histories the plain number naming has a quarter of the cases, two thirds of the rotating histories restart the logger, and the failing calls of a set-up on a directory with files are sampled first",
     "C20": "shards 4-7 and 12-15 run with UTC forced; children configure formats explicitly, through AdaptiveFormat, or not at all",
 }
 for _k, _v in RULE_ADDENDA.items():
